@@ -176,19 +176,22 @@ pub fn compare_archives<P: AsRef<Path>>(
         filter,
     )?;
 
-    // Generate summary
+    // Generate summary. One file can appear in several of the difference lists (e.g. its
+    // stored size and its flags both differ), so count each differing file once.
+    let differing: std::collections::HashSet<&str> = files
+        .size_differences
+        .iter()
+        .map(|d| d.name.as_str())
+        .chain(files.content_differences.iter().map(String::as_str))
+        .chain(files.metadata_differences.iter().map(|d| d.name.as_str()))
+        .collect();
     let summary = ComparisonSummary {
         source_files: metadata.file_count.0,
         target_files: metadata.file_count.1,
         source_only_count: files.source_only.len(),
         target_only_count: files.target_only.len(),
-        different_files: files.size_differences.len()
-            + files.content_differences.len()
-            + files.metadata_differences.len(),
-        identical_files: files.common_files.len()
-            - files.size_differences.len()
-            - files.content_differences.len()
-            - files.metadata_differences.len(),
+        different_files: differing.len(),
+        identical_files: files.common_files.len().saturating_sub(differing.len()),
     };
 
     // Determine if archives are identical
